@@ -502,6 +502,14 @@ class Mini:
         if name == 'int':
             return int(args[0])
         if name == 'isinstance':
+            # concrete python values against builtin types
+            types = {'global:tuple': tuple, 'global:list': list, 'global:int': int,
+                     'global:float': float, 'global:str': str, 'global:dict': dict,
+                     'global:bool': bool, 'global:set': set}
+            cs = args[1] if isinstance(args[1], tuple) else (args[1],)
+            if all(isinstance(c, Token) and c.name in types for c in cs) and \
+                    not isinstance(args[0], (Token, Obj)):
+                return isinstance(args[0], tuple(types[c.name] for c in cs))
             raise Unsupported('isinstance on tokens')
         if name == 'id':
             return id(args[0]) if not isinstance(args[0], Token) else hash(args[0])
